@@ -78,6 +78,20 @@ fn apply(b: &mut Builder, req: Req) -> Vec<usize> {
     }
 }
 
+/// the 'core' alphabet: xor / and over unordered pairs of distinct non-constant wires, and not
+fn actions_core(avail: &[usize]) -> Vec<Req> {
+    let mut v = vec![];
+    let ws: Vec<usize> = avail.iter().copied().filter(|w| *w >= 2).collect();
+    for (i, &a) in ws.iter().enumerate() {
+        for &b in &ws[i + 1..] {
+            v.push(Req::Xor(a, b));
+            v.push(Req::And(a, b));
+        }
+        v.push(Req::Not(a));
+    }
+    v
+}
+
 fn actions(avail: &[usize], m: usize, rich: bool) -> Vec<Req> {
     let mut v = vec![];
     for &a in avail {
@@ -214,6 +228,12 @@ fn check_state(node: &Node, m: usize, cache: bool, coll: &Collector, builds: &mu
 }
 
 pub fn bfs(m: usize, cache: bool, max_depth: usize, state_cap: usize, rich: bool, budget: &Budget, coll: &Collector, c15_too: bool) -> BfsResult {
+    bfs_alpha(m, cache, max_depth, state_cap, if rich { 1 } else { 0 }, budget, coll, c15_too)
+}
+
+/// alpha: 0 = xor/and over all ordered pairs incl. constants + not, 1 = rich, 2 = core (deeper searches)
+pub fn bfs_alpha(m: usize, cache: bool, max_depth: usize, state_cap: usize, alpha: u8, budget: &Budget, coll: &Collector, c15_too: bool) -> BfsResult {
+    let rich = alpha == 1;
     let root = Node { b: Builder::new(vec![m], cache), avail: (0..2 + m).collect(), hist: vec![] };
     let mut seen: HashSet<(Snapshot, Vec<usize>)> = HashSet::new();
     seen.insert((root.b.snapshot(), root.avail.clone()));
@@ -238,7 +258,7 @@ pub fn bfs(m: usize, cache: bool, max_depth: usize, state_cap: usize, rich: bool
             let mut local_next = vec![];
             let mut local_hist: BTreeMap<String, u64> = BTreeMap::new();
             let mut t = 0u64;
-            for req in actions(&node.avail, m, rich) {
+            for req in if alpha == 2 { actions_core(&node.avail) } else { actions(&node.avail, m, rich) } {
                 t += 1;
                 let mut b = node.b.clone();
                 let req2 = req;
@@ -376,26 +396,33 @@ pub struct BfsPlan {
     pub cache: bool,
     pub depth: usize,
     pub rich: bool,
+    pub core: bool,
 }
 
 pub fn plans(tier: Tier) -> Vec<BfsPlan> {
     match tier {
         Tier::Quick => vec![
-            BfsPlan { m: 2, cache: true, depth: 3, rich: true },
-            BfsPlan { m: 2, cache: false, depth: 3, rich: true },
-            BfsPlan { m: 3, cache: true, depth: 3, rich: false },
-            BfsPlan { m: 3, cache: false, depth: 2, rich: false },
-            BfsPlan { m: 1, cache: true, depth: 5, rich: true },
+            BfsPlan { m: 2, cache: true, depth: 3, rich: true, core: false },
+            BfsPlan { m: 2, cache: false, depth: 3, rich: true, core: false },
+            BfsPlan { m: 3, cache: true, depth: 3, rich: false, core: false },
+            BfsPlan { m: 3, cache: false, depth: 2, rich: false, core: false },
+            BfsPlan { m: 1, cache: true, depth: 5, rich: true, core: false },
+            // deeper, over the core alphabet: reaches the rewrites that need four or five requests
+            BfsPlan { m: 3, cache: true, depth: 4, rich: false, core: true },
+            BfsPlan { m: 4, cache: true, depth: 4, rich: false, core: true },
         ],
         Tier::Thorough => vec![
-            BfsPlan { m: 2, cache: true, depth: 4, rich: true },
-            BfsPlan { m: 2, cache: false, depth: 4, rich: true },
-            BfsPlan { m: 2, cache: true, depth: 5, rich: false },
-            BfsPlan { m: 3, cache: true, depth: 4, rich: false },
-            BfsPlan { m: 3, cache: false, depth: 3, rich: false },
-            BfsPlan { m: 3, cache: true, depth: 3, rich: true },
-            BfsPlan { m: 1, cache: true, depth: 7, rich: true },
-            BfsPlan { m: 1, cache: false, depth: 5, rich: true },
+            BfsPlan { m: 2, cache: true, depth: 4, rich: true, core: false },
+            BfsPlan { m: 2, cache: false, depth: 4, rich: true, core: false },
+            BfsPlan { m: 2, cache: true, depth: 5, rich: false, core: false },
+            BfsPlan { m: 3, cache: true, depth: 4, rich: false, core: false },
+            BfsPlan { m: 3, cache: false, depth: 3, rich: false, core: false },
+            BfsPlan { m: 3, cache: true, depth: 3, rich: true, core: false },
+            BfsPlan { m: 1, cache: true, depth: 7, rich: true, core: false },
+            BfsPlan { m: 1, cache: false, depth: 5, rich: true, core: false },
+            BfsPlan { m: 3, cache: true, depth: 6, rich: false, core: true },
+            BfsPlan { m: 4, cache: true, depth: 5, rich: false, core: true },
+            BfsPlan { m: 3, cache: false, depth: 5, rich: false, core: true },
         ],
     }
 }
@@ -407,13 +434,13 @@ pub fn run_bfs_all(tier: Tier, budget: &Budget, coll: &Collector, c15_too: bool)
     let mut samples = vec![];
     let mut all_complete = true;
     for p in plans(tier) {
-        let r = bfs(p.m, p.cache, p.depth, tier.pick(1_500_000, 4_000_000), p.rich, budget, coll, c15_too);
+        let r = bfs_alpha(p.m, p.cache, p.depth, tier.pick(1_500_000, 4_000_000), if p.core { 2 } else if p.rich { 1 } else { 0 }, budget, coll, c15_too);
         states += r.states;
         transitions += r.transitions;
         if r.capped || r.depth_completed < p.depth {
             all_complete = false;
         }
-        per.push(json!({"inputs": p.m, "cache_gates": p.cache, "rich_alphabet(or/eq/mux/adder)": p.rich, "depth_planned": p.depth, "depth_completed": r.depth_completed,
+        per.push(json!({"inputs": p.m, "cache_gates": p.cache, "rich_alphabet(or/eq/mux/adder)": p.rich, "core_alphabet(xor/and over unordered pairs of non-constant wires, not)": p.core, "depth_planned": p.depth, "depth_completed": r.depth_completed,
             "states": r.states, "transitions": r.transitions, "builds_evaluated": r.builds, "capped": r.capped, "transitions_by_request_and_gates_added": r.added_hist}));
         samples.extend(r.sample);
     }
